@@ -98,6 +98,8 @@ type SModel struct {
 	tagVar  map[string]int // descriptor variant the reference was tagged with
 	names   map[string]int // file store: file name -> node that holds it
 	indexed map[int]bool   // OCI: has an index entry (tagged or by digest)
+	// file store with IgnoreNoName: a push without a file name is accepted and dropped
+	ignoreNoName bool
 	// set when the history entered the corner the statement of C09 leaves open
 	Ambiguous string
 }
@@ -107,7 +109,7 @@ func NewSModel(g *Graph, kind string, autoGC bool) *SModel {
 }
 
 func (m *SModel) Clone() *SModel {
-	c := &SModel{g: m.g, kind: m.kind, autoGC: m.autoGC, present: map[int]bool{}, tags: map[string]int{}, tagVar: map[string]int{}, names: map[string]int{}, indexed: map[int]bool{}, Ambiguous: m.Ambiguous}
+	c := &SModel{g: m.g, kind: m.kind, autoGC: m.autoGC, ignoreNoName: m.ignoreNoName, present: map[int]bool{}, tags: map[string]int{}, tagVar: map[string]int{}, names: map[string]int{}, indexed: map[int]bool{}, Ambiguous: m.Ambiguous}
 	for k, v := range m.tagVar {
 		c.tagVar[k] = v
 	}
@@ -195,6 +197,9 @@ func (m *SModel) Apply(op SOp) SRes {
 				return SRes{Err: "dupname"}
 			}
 			m.names[node.Spec.Title] = n
+		}
+		if m.kind == "file" && m.ignoreNoName && node.Spec.Title == "" {
+			return SRes{} // documented option: content without a name is skipped, the push reports success
 		}
 		if m.present[n] {
 			return SRes{Err: "exists"}
